@@ -24,6 +24,7 @@ pub fn all_bodies<'tcx>(tcx: TyCtxt<'tcx>) -> J {
         let d = Dumper { tcx, tr };
         let mut o = J::obj();
         o.push(("path", J::s(defpath(tcx, ldid.to_def_id()))));
+        o.push(("dp", J::s(dp(tcx, ldid.to_def_id()))));
         o.push(("kind", J::s(format!("{:?}", kind))));
         o.push(("span", sp(tcx, tcx.def_span(ldid))));
         if kind == DefKind::Closure {
@@ -253,7 +254,7 @@ impl<'tcx> Dumper<'tcx> {
         let tcx = self.tcx;
         let it = tcx.hir_item(id);
         let did = it.owner_id.def_id;
-        let mut o = vec![("k", J::s("SItem")), ("path", J::s(defpath(tcx, did.to_def_id())))];
+        let mut o = vec![("k", J::s("SItem")), ("path", J::s(defpath(tcx, did.to_def_id()))), ("dp", J::s(dp(tcx, did.to_def_id())))];
         match &it.kind {
             hir::ItemKind::Impl(imp) => {
                 o.push(("ik", J::s("Impl")));
@@ -269,6 +270,7 @@ impl<'tcx> Dumper<'tcx> {
                     ms.push(J::Obj(vec![
                         ("name", J::s(tcx.item_name(d.to_def_id()).to_string())),
                         ("path", J::s(defpath(tcx, d.to_def_id()))),
+                        ("dp", J::s(dp(tcx, d.to_def_id()))),
                     ]));
                 }
                 o.push(("items", J::Arr(ms)));
@@ -439,6 +441,7 @@ impl<'tcx> Dumper<'tcx> {
             hir::ExprKind::Closure(c) => {
                 kind = "Closure";
                 o.push(("path", J::s(defpath(tcx, c.def_id.to_def_id()))));
+                o.push(("dp", J::s(dp(tcx, c.def_id.to_def_id()))));
                 let (params, body) = self.closure_body(c.def_id, c.body);
                 o.push(("params", params));
                 o.push(("body", body));
